@@ -319,6 +319,7 @@ func rulesWriters(c *Ctx, r *Report) {
 		})
 	}
 	r.floor("B1", nCalls, 10, "error-returning calls in the five Write methods")
+	rulesFileDelegation(c, r) // File hands on every item of Reader, error items included (a failure of the stream is not swallowed by the File layer)
 	// 'returns nil when everything was accepted': the errors Write returns are the writer's (or a documented refusal)
 	for _, sp := range []struct {
 		rel, method string
